@@ -270,8 +270,10 @@ def base_rng_seed(case) -> int:
     return (case.get("seed", 0) * 1009 + 7) % 2**32
 
 
-def child_history(case, schedule, with_faults=True):
-    """Runs in a pristine fork: the whole history. Returns list of (result, exc, interrupted)."""
+def child_history(case, schedule, with_faults=True, reseed=None):
+    """Runs in a pristine fork: the whole history. Returns list of (result, exc, interrupted).
+    ``reseed`` maps a step index to the numpy RNG seed to put in force before that step (used by the permuted run,
+    so that every call sees the RNG state that was in force for it in the original interleaving)."""
     install_jit_seam()
     clock = install_clock()
     objs = {}
@@ -286,15 +288,23 @@ def child_history(case, schedule, with_faults=True):
     # every rng-skew perturbation; no library call may move it, so a pristine reference seeded with the value in
     # force must see the same state
     np.random.seed(base_rng_seed(case))
+    amg_proxy = amg_real = None
     for step, c in enumerate(schedule):
         op = case["clients"][c][pcs[c]]
         pcs[c] += 1
+        if reseed and step in reseed:
+            np.random.seed(reseed[step])
         if with_faults:
             for e in case.get("env", []):
                 if e["before_step"] == step:
                     apply_env(e, clock)
             for f in case.get("faults", []):
-                if f["step"] == step:
+                if f["step"] == step and f.get("kind") == "amg-setup-raise" and op["op"] == "W1":
+                    import darsia.measure.wasserstein as wm
+                    from engines.c17_no_mutation import _PyamgProxy
+                    amg_proxy = _PyamgProxy(wm.pyamg, f["occurrence"])
+                    amg_real, wm.pyamg = wm.pyamg, amg_proxy
+                elif f["step"] == step:
                     intr.arm(f["occurrence"], "w1" if op["op"] == "W1" else "jacobi")
         try:
             r, exc = exec_op(op, objs), None
@@ -303,6 +313,11 @@ def child_history(case, schedule, with_faults=True):
         except Exception as e:  # noqa
             r, exc = None, type(e).__name__
         fired = intr.fired
+        if amg_proxy is not None:
+            import darsia.measure.wasserstein as wm
+            wm.pyamg = amg_real
+            fired = fired or amg_proxy.fired  # the faulted step promises nothing about its own value
+            amg_proxy = None
         intr.disarm()
         intr.fired = False
         out.append((r, exc, fired))
@@ -457,7 +472,7 @@ class C16Engine(Engine):
             cfg = {"method": r.choice(["newton", "bregman", "bregman-adaptive"]), "formulation": form, "linear_solver": ls,
                    "shape": shape, "voxel_size": [r.choice([0.5, 1.0, 2.0]) for _ in range(dim)],
                    "l1_mode": r.choice(sorted(w1.L1)), "mobility_mode": r.choice(["CELL_BASED", "CELL_BASED_ARITHMETIC", "CELL_BASED_HARMONIC"]),
-                   "num_iter": r.randint(1, 5), "aa_depth": r.choice([0, 0, 1, 2]), "aa_restart": r.choice([None, 2, 3]),
+                   "num_iter": r.randint(1, 5), "aa_depth": r.choice([0, 0, 1, 2, 3]), "aa_restart": r.choice([None, 2, 3]),
                    "pair": {"kind": "dense", "id": 0}, "tol_residual": 1e-300, "tol_increment": 1e-300, "tol_distance": 1e-300}
             if cfg["aa_depth"] == 0:
                 cfg["aa_restart"] = None
@@ -583,6 +598,10 @@ class C16Engine(Engine):
         faults = []
         if ("solver" in alphabet or "w1" in alphabet) and cfg.random() < 0.25:
             faults.append({"step": fl.randint(0, len(order) - 1), "occurrence": fl.randint(0, 6), "kind": "solve-interrupt"})
+        elif "w1" in alphabet and cfg.random() < 0.3:
+            # the k-th multigrid set-up of a distance call fails (after drawing its random vectors); inside the iteration
+            # the library handles the failure and the call returns
+            faults.append({"step": fl.randint(0, len(order) - 1), "occurrence": fl.randint(1, 3), "kind": "amg-setup-raise"})
         envp = []
         if cfg.random() < 0.5:
             for _ in range(env.randint(1, 3)):
@@ -625,6 +644,7 @@ class C16Engine(Engine):
         seen: dict = {}       # shared-state key -> list of op descriptors seen so far
         faulted_objs: set = set()
         rng_in_force = base_rng_seed(case)
+        rng_at_step: dict = {}
         for step, c in enumerate(case["schedule"]):
             op = case["clients"][c][pcs[c]]
             pcs[c] += 1
@@ -635,13 +655,15 @@ class C16Engine(Engine):
                     out.counters["fault:env-" + e["kind"]] += 1
                     if e["kind"] == "rng-skew":
                         rng_in_force = e["value"] % 2**32
+            rng_at_step[step] = rng_in_force
             target = op.get("obj") or (op.get("solver") if op.get("solver", "default") != "default" else None)
             state_key = target or ("<default:%s>" % op["op"] if op["op"] in ("H1", "SBTVD") else None)
             params_before = copy.deepcopy(model.get(target)) if target in model else None
             was_tainted = target in tainted
             self._model_step(model, tainted, op, objects)
             if fired:
-                out.counters["fault:solve-interrupt"] += 1
+                kinds = [f.get("kind") for f in case.get("faults", []) if f["step"] == step]
+                out.counters["fault:" + (kinds[0] if kinds else "solve-interrupt")] += 1
                 faulted_objs.add(state_key)
                 out.event(client=c, op=op["op"], target=target, interrupted=True)
                 continue
@@ -664,6 +686,7 @@ class C16Engine(Engine):
             # spectral-radius estimates) at the start of every distance call - the same state for the
             # history step and for its pristine reference, so that hidden state is the only difference.
             rng_seed = rng_in_force
+            rng_at_step[step] = rng_in_force
             ref_params = params_before if op["op"] in ("JACOBI", "MG") else (model.get(target) if target in model else None)
             ref, rexc = kernel.in_fork(child_reference, case, op, ospec, ref_params, rng_seed, timeout=self.run_timeout_s)
             out.counters["op:pristine-reference"] += 1
@@ -677,7 +700,8 @@ class C16Engine(Engine):
                                                  timeout=self.run_timeout_s)
                     out.counters["fault:rng-skew-reference"] += 1
                     if rexc2 is None:
-                        ok2, how2 = same(ref2, ref, 1e-3)
+                        # distance only: Anderson mixing can amplify solver-tolerance differences of the flux
+                        ok2, how2 = same(ref2[0], ref[0], 1e-3)
                         if isinstance(how2, float):
                             out.extra["max_rng_dependence"] = max(out.extra.get("max_rng_dependence", 0.0), how2)
                             if how2 > 1e-6:
@@ -712,7 +736,18 @@ class C16Engine(Engine):
         if len(case["clients"]) >= 2 and not case.get("faults") and not out.violations:
             perm = sorted(case["schedule"])
             if perm != case["schedule"]:
-                h2 = kernel.in_fork(child_history, {**case, "env": []}, perm, False, timeout=self.run_timeout_s)
+                # every call of the permuted run starts from the RNG state that was in force for it originally
+                pos = {}
+                seen_c = {c: 0 for c in case["clients"]}
+                for st, c in enumerate(case["schedule"]):
+                    pos[(c, seen_c[c])] = st
+                    seen_c[c] += 1
+                reseed, seen_c = {}, {c: 0 for c in case["clients"]}
+                for st2, c in enumerate(perm):
+                    orig = pos[(c, seen_c[c])]
+                    seen_c[c] += 1
+                    reseed[st2] = rng_at_step.get(orig, base_rng_seed(case))
+                h2 = kernel.in_fork(child_history, {**case, "env": []}, perm, False, reseed, timeout=self.run_timeout_s)
                 out.counters["probe:permutation-checked"] += 1
                 per = {c: [] for c in case["clients"]}
                 for st, c in enumerate(case["schedule"]):
@@ -727,10 +762,7 @@ class C16Engine(Engine):
                             continue
                         tol = 1e-12
                         if op["op"] == "W1" and objects[op["obj"]]["cfg"]["linear_solver"] != "direct":
-                            # the permuted run has no rng-skew perturbations: with them in the history the RNG states
-                            # differ legitimately (RNG dependence is C16.G's business, measured < 1e-7)
-                            skewed = any(e["kind"] == "rng-skew" for e in case.get("env", []))
-                            tol = 1e-5 if skewed else 1e-11
+                            tol = 1e-11
                         ok = (a[1] == b[1]) and (a[1] is not None or same(a[0], b[0], tol)[0])
                         if not ok:
                             out.violate("C16.P", self._culprit(op, objects.get(op.get("obj")), [], {}), st, client=c, index=i, op=op)
